@@ -8,9 +8,9 @@ open GapicModel.Model.AutoPop
 /-! ## The statement's conditions -/
 
 /-- one `auto_populated_fields` entry meets AIP-4235: a top-level field of the request message that is
-a string, not REQUIRED, annotated UUID4 -/
+a singular string, not REQUIRED, annotated UUID4 -/
 def FieldOk (inp : List Field) (f : String) : Prop :=
-  ∃ fd, getField inp f = some fd ∧ fd.isStr = true ∧ fd.required = false ∧ fd.uuid4 = true
+  ∃ fd, getField inp f = some fd ∧ (fd.isStr = true ∧ fd.repeated = false) ∧ fd.required = false ∧ fd.uuid4 = true
 
 /-- one method-settings entry is fine: the method exists and, if any field is listed, it is unary and
 every listed field is fine -/
@@ -26,7 +26,7 @@ inductive Violation (api : List Method) (s : Settings) : Prop where
   | missing (m : Method) (f : String) : getMethod api s.selector = some m → f ∈ s.fields →
       getField m.input f = none → Violation api s            -- not a top-level field (every nested path)
   | nonString (m : Method) (f : String) (fd : Field) : getMethod api s.selector = some m → f ∈ s.fields →
-      getField m.input f = some fd → fd.isStr = false → Violation api s
+      getField m.input f = some fd → (fd.isStr = false ∨ fd.repeated = true) → Violation api s   -- incl. `repeated string`
   | required (m : Method) (f : String) (fd : Field) : getMethod api s.selector = some m → f ∈ s.fields →
       getField m.input f = some fd → fd.required = true → Violation api s
   | unannotated (m : Method) (f : String) (fd : Field) : getMethod api s.selector = some m → f ∈ s.fields →
@@ -81,7 +81,7 @@ theorem fieldErrs_nil_iff (inp : List Field) (f : String) : fieldErrs inp f = []
   | none => simp
   | some fd =>
     simp only [Option.some.injEq, exists_eq_left']
-    cases fd.isStr <;> cases fd.required <;> cases fd.uuid4 <;> simp
+    cases fd.isStr <;> cases fd.repeated <;> cases fd.required <;> cases fd.uuid4 <;> simp
 
 theorem classify_none_iff (api : List Method) (s : Settings) : classify api s = none ↔ EntryOk api s := by
   unfold classify EntryOk
@@ -113,7 +113,10 @@ theorem violation_not_ok {api : List Method} {s : Settings} (hv : Violation api 
     rw [h] at hm; cases hm
     obtain ⟨_, _, hall⟩ := hok (List.ne_nil_of_mem hf)
     obtain ⟨fd', hfd, h1, _, _⟩ := hall f hf
-    rw [hg] at hfd; cases hfd; simp [hb] at h1
+    rw [hg] at hfd; cases hfd
+    rcases hb with hb | hb
+    · simp [hb] at h1
+    · simp [hb] at h1
   | required m' f fd h hf hg hb =>
     rw [h] at hm; cases hm
     obtain ⟨_, _, hall⟩ := hok (List.ne_nil_of_mem hf)
@@ -142,7 +145,7 @@ theorem not_ok_violation {api : List Method} {s : Settings} (h : ¬ EntryOk api 
         cases hg : getField m.input f with
         | none => exact .missing m f hm hf hg
         | some fd =>
-          by_cases h1 : fd.isStr = false
+          by_cases h1 : fd.isStr = false ∨ fd.repeated = true
           · exact .nonString m f fd hm hf hg h1
           · by_cases h2 : fd.required = true
             · exact .required m f fd hm hf hg h2
@@ -276,8 +279,8 @@ end Aux
 
 /-- **The settings are accepted exactly when no selector occurs twice and every entry meets the
 statement's conditions** (method exists; if fields are listed: unary, and each listed field is a
-top-level, non-required string annotated UUID4). `isStr` is the code's test `field.type == str`, which
-does not look at the label — see `repeated_string_accepted_counterexample`. -/
+top-level, non-required, singular string annotated UUID4; a `repeated string` counts as "not a string"
+since the `fix:` commit 239cd3d — see `repeated_string_rejected`). -/
 theorem accepted_iff (api : List Method) (ss : List Settings) :
     validate api ss = [] ↔ (ss.map (·.selector)).Nodup ∧ ∀ s ∈ ss, EntryOk api s := by
   unfold validate
@@ -357,11 +360,11 @@ theorem fieldErrs_missing (inp : List Field) (f : String) (h : getField inp f = 
   simp [fieldErrs, h]
 
 theorem fieldErrs_found (inp : List Field) (f : String) (fd : Field) (h : getField inp f = some fd) :
-    (FieldErr.notString f ∈ fieldErrs inp f ↔ fd.isStr = false) ∧
+    (FieldErr.notString f ∈ fieldErrs inp f ↔ (fd.isStr = false ∨ fd.repeated = true)) ∧
     (FieldErr.isRequired f ∈ fieldErrs inp f ↔ fd.required = true) ∧
     (FieldErr.notUuid4 f ∈ fieldErrs inp f ↔ fd.uuid4 = false) := by
   simp only [fieldErrs, h]
-  cases fd.isStr <;> cases fd.required <;> cases fd.uuid4 <;> simp
+  cases fd.isStr <;> cases fd.repeated <;> cases fd.required <;> cases fd.uuid4 <;> simp
 
 /-- a nested path can never be accepted: proto field names contain no dot, the lookup is by whole string -/
 theorem nested_path_not_found (inp : List Field) (f : String)
@@ -409,11 +412,18 @@ example : validate demoApi [⟨"p.S.Create", ["name"]⟩, ⟨"p.S.Watch", []⟩,
     [("p.S.Create", .duplicate)] := by decide
 example : ¬ (([⟨"p.S.Create", []⟩, ⟨"p.S.Create", []⟩] : List Settings).map (·.selector)).Nodup := by decide
 
-/-- The statement wants every non-string declaration rejected; the code's test `field.type != str` ignores
-the label, so `repeated string … [format = UUID4]` is ACCEPTED (real code: same; at call time the emitted
-`request.tags = str(uuid.uuid4())` stores 36 one-character strings). Known finding. -/
-theorem repeated_string_accepted_counterexample :
-    fTags.repeated = true ∧ validate demoApi [⟨"p.S.Create", ["tags"]⟩] = [] := by decide
+/-- Regression for the repaired defect (`fix:` 239cd3d): a `repeated string … [format = UUID4]` field is not
+a string in the sense of AIP-4235; listing it rejects the settings with "not of type string", whatever its
+other attributes are. (Before the repair the label was ignored and such a field was accepted.) -/
+theorem repeated_string_rejected (api : List Method) (ss : List Settings) (s : Settings) (m : Method)
+    (f : String) (fd : Field) (hs : s ∈ ss) (hm : getMethod api s.selector = some m) (hf : f ∈ s.fields)
+    (hfd : getField m.input f = some fd) (hr : fd.repeated = true) :
+    validate api ss ≠ [] ∧ FieldErr.notString f ∈ fieldErrs m.input f :=
+  ⟨each_single_violation_rejected api ss s hs (.nonString m f fd hm hf hfd (Or.inr hr)),
+   ((fieldErrs_found m.input f fd hfd).1).mpr (Or.inr hr)⟩
+
+example : fTags.repeated = true ∧ getField mCreate.input "tags" = some fTags ∧
+    validate demoApi [⟨"p.S.Create", ["tags"]⟩] = [("p.S.Create", .fields [.notString "tags"])] := by decide
 
 /-! ## Call time: the population macro -/
 
